@@ -43,6 +43,7 @@ type scenarioParams struct {
 	pairs      int // (contract, slot) pairs per block id
 	txPerKind  int
 	consistBlk int // blocks per round for the cross-method consistency pass
+	exhaustAt  int // operation index after which scenarios 0 and 1 run the exhaustive round
 }
 
 func main() {
@@ -91,7 +92,7 @@ func main() {
 	}
 
 	nScen := h.f.Scale(6, 40)
-	sp := scenarioParams{ops: h.f.Scale(26, 60), every: h.f.Scale(4, 5), pairs: h.f.Scale(3, 5), txPerKind: h.f.Scale(3, 6), consistBlk: h.f.Scale(2, 4)}
+	sp := scenarioParams{ops: h.f.Scale(26, 60), every: h.f.Scale(4, 5), pairs: h.f.Scale(3, 5), txPerKind: h.f.Scale(3, 6), consistBlk: h.f.Scale(2, 4), exhaustAt: h.f.Scale(9, 13)}
 	root := lib.NewRNG(h.f.Seed)
 	for s := 0; s < nScen; s++ {
 		r := root.Fork(uint64(s))
@@ -119,9 +120,13 @@ func (h *harness) scenario(s int, r *lib.RNG, sp scenarioParams) error {
 	w.startVersion = s / 2
 	lines := []string{"reset"}
 	round := 0
-	doRound := func() error {
-		err := h.queryRound(s, round, w, r, sp, &lines)
+	doQueries := func(qs []*query) error {
+		err := h.queryRound(s, round, w, r, sp, &lines, qs)
 		round++
+		return err
+	}
+	doRound := func() error { return doQueries(w.round(r, sp.pairs, sp.txPerKind)) }
+	if err := h.rejections(s, r); err != nil {
 		return err
 	}
 	// the empty chain
@@ -149,14 +154,33 @@ func (h *harness) scenario(s int, r *lib.RNG, sp scenarioParams) error {
 			}
 			lines = append(lines, "revert")
 			h.res.Hit("op:revert")
+			if pendingReverts == 0 {
+				// right after the reorg: everything asked before it must now be answered from
+				// the shorter chain (nothing on the read path may remember the dropped blocks)
+				if err := doRound(); err != nil {
+					return err
+				}
+				h.res.Hit("round:right-after-reorg")
+			}
 		case ht >= 3 && r.Chance(1, 8):
-			// a reorg: drop 1..3 blocks (the next operations re-grow a different fork)
+			// a reorg: drop 1..3 blocks (the next operations re-grow a different fork). Ask about
+			// the blocks that are about to go first, by every kind of id (warms whatever caches)
+			if err := doQueries(w.warm(r)); err != nil {
+				return err
+			}
+			h.res.Hit("round:right-before-reorg")
 			pendingReverts = r.Intn(3)
 			if err := w.revert(); err != nil {
 				return err
 			}
 			lines = append(lines, "revert")
 			h.res.Hit("op:revert")
+			if pendingReverts == 0 {
+				if err := doRound(); err != nil {
+					return err
+				}
+				h.res.Hit("round:right-after-reorg")
+			}
 		case ht >= 1 && r.Chance(1, 5):
 			// L1 head positions: genesis, inside, the head, just ahead, far ahead
 			var n uint64
@@ -194,7 +218,13 @@ func (h *harness) scenario(s int, r *lib.RNG, sp scenarioParams) error {
 			h.res.Hit("block-version:" + w.g.Head().Block.ProtocolVersion)
 		}
 		w.traceSlot(op)
-		if (op+1)%sp.every == 0 || op == sp.ops-1 {
+		if op == sp.exhaustAt && s < 2 {
+			// the whole small space: every id x every method x every index / hash / address / slot / class
+			if err := doQueries(w.exhaustive()); err != nil {
+				return err
+			}
+			h.res.Hit("round:exhaustive")
+		} else if (op+1)%sp.every == 0 || op == sp.ops-1 {
 			if err := doRound(); err != nil {
 				return err
 			}
@@ -221,7 +251,7 @@ func (h *harness) scenario(s int, r *lib.RNG, sp scenarioParams) error {
 
 func isStateMethod(m string) bool {
 	switch m {
-	case "storage", "nonce", "classHashAt", "class", "classAt":
+	case "storage", "storageLU", "nonce", "classHashAt", "class", "classAt":
 		return true
 	}
 	return false
@@ -229,8 +259,7 @@ func isStateMethod(m string) bool {
 
 // queryRound generates the queries of a checkpoint, asks the model, asks every node on every
 // version, and compares.
-func (h *harness) queryRound(s, round int, w *world, r *lib.RNG, sp scenarioParams, pending *[]string) error {
-	qs := w.round(r, sp.pairs, sp.txPerKind)
+func (h *harness) queryRound(s, round int, w *world, r *lib.RNG, sp scenarioParams, pending *[]string, qs []*query) error {
 	// model answers: pending chain operations first, then one line per (query, version)
 	lines := append([]string{}, *pending...)
 	nOps := len(lines)
@@ -239,9 +268,6 @@ func (h *harness) queryRound(s, round int, w *world, r *lib.RNG, sp scenarioPara
 	var slots []slot
 	for qi, q := range qs {
 		for vi, ver := range versions {
-			if ver == "v8" && q.id != nil && q.id.tag == "pre" && !isStateMethod(q.method) {
-				continue // v8 `pending` block answers are synthetic; not modelled, not specified
-			}
 			for ni := range w.nodes {
 				lines = append(lines, q.leanLine(ver, backendName[ni]))
 				slots = append(slots, slot{qi, vi, ni})
@@ -288,7 +314,7 @@ func (h *harness) queryRound(s, round int, w *world, r *lib.RNG, sp scenarioPara
 					h.res.Hit("arg:" + q.sub)
 				}
 				if exp.skip {
-					h.res.Hit("answer:unspecified(v8 pending block)")
+					h.res.Hit("answer:v8-pending-synthetic-block")
 				} else {
 					h.res.Hit("answer:" + answerClass(line))
 				}
@@ -342,7 +368,11 @@ func (h *harness) queryRound(s, round int, w *world, r *lib.RNG, sp scenarioPara
 		for vi := range versions {
 			if got[vi][0] != got[vi][1] && !violated[vi] {
 				ctx := &caseCtx{s: s, round: round, qi: qi, w: w, q: q, ver: versions[vi], backend: "both"}
-				h.res.Violate(lib.Violation{Sig: "backends-disagree:" + versions[vi] + ":" + q.kindKey(),
+				sig := "backends-disagree:" + versions[vi] + ":" + q.kindKey()
+				if q.method == "storageLU" && sameValueDifferentBlock(got[vi][0], got[vi][1]) {
+					sig = sigLastUpdateNoop
+				}
+				h.res.Violate(lib.Violation{Sig: sig,
 					What:   fmt.Sprintf("%s %s: legacy backend answers %q, new backend answers %q", versions[vi], rpcName[q.method], got[vi][0], got[vi][1]),
 					Replay: ctx.replay(exps[vi].String(), got[vi][0]+" / "+got[vi][1])})
 			}
@@ -428,6 +458,9 @@ func (h *harness) deep(w *world, q *query, ver string, obj any, n int) problems 
 			for i, t := range txs {
 				if to, ok := t.(jobj); ok && i < len(w.g.Bundles[n].Block.Transactions) {
 					p = append(p, deepTx(to, w.g.Bundles[n].Block.Transactions[i], true)...)
+					if ver == "v10" {
+						p = append(p, deepProofFacts(to, w.g.Bundles[n].Block.Transactions[i], q.proofFacts)...)
+					}
 				}
 			}
 		}
@@ -442,6 +475,9 @@ func (h *harness) deep(w *world, q *query, ver string, obj any, n int) problems 
 			}
 			if to, ok := pair["transaction"].(jobj); ok {
 				p = append(p, deepTx(to, w.g.Bundles[n].Block.Transactions[i], false)...)
+				if ver == "v10" {
+					p = append(p, deepProofFacts(to, w.g.Bundles[n].Block.Transactions[i], q.proofFacts)...)
+				}
 			}
 			if ro, ok := pair["receipt"].(jobj); ok {
 				p = append(p, w.deepReceipt(ro, n, i, false)...)
@@ -450,11 +486,19 @@ func (h *harness) deep(w *world, q *query, ver string, obj any, n int) problems 
 		return p
 	case "txByHash":
 		if bn, i, ok := w.findTx(&q.txHash); ok {
-			return deepTx(o, w.g.Bundles[bn].Block.Transactions[i], true)
+			p := deepTx(o, w.g.Bundles[bn].Block.Transactions[i], true)
+			if ver == "v10" {
+				p = append(p, deepProofFacts(o, w.g.Bundles[bn].Block.Transactions[i], q.proofFacts)...)
+			}
+			return p
 		}
 	case "txByIdx":
-		if q.index < len(w.g.Bundles[n].Block.Transactions) {
-			return deepTx(o, w.g.Bundles[n].Block.Transactions[q.index], true)
+		if q.index >= 0 && q.index < len(w.g.Bundles[n].Block.Transactions) {
+			p := deepTx(o, w.g.Bundles[n].Block.Transactions[q.index], true)
+			if ver == "v10" {
+				p = append(p, deepProofFacts(o, w.g.Bundles[n].Block.Transactions[q.index], q.proofFacts)...)
+			}
+			return p
 		}
 	case "receipt":
 		if bn, i, ok := w.findTx(&q.txHash); ok {
@@ -540,10 +584,11 @@ func (h *harness) violate(c *caseCtx, exp expectation, got string, resp rpcResp)
 
 // Signatures of the ways juno is known to leave the statement (known/C08.json).
 const (
-	sigHashZeroEmpty = "state-read-at-block-hash-zero-answers-as-for-an-empty-state"
-	sigHashZeroHead  = "state-read-at-block-hash-zero-returns-head-state-data-on-new-backend"
-	sigStaleSlot     = "new-backend-head-read-returns-stale-value-of-zeroed-slot"
-	sigStaleReverted = "new-backend-head-read-returns-value-written-by-reverted-block"
+	sigHashZeroEmpty  = "state-read-at-block-hash-zero-answers-as-for-an-empty-state"
+	sigHashZeroHead   = "state-read-at-block-hash-zero-returns-head-state-data-on-new-backend"
+	sigStaleSlot      = "new-backend-head-read-returns-stale-value-of-zeroed-slot"
+	sigStaleReverted  = "new-backend-head-read-returns-value-written-by-reverted-block"
+	sigLastUpdateNoop = "getStorageAt-last-update-block-backends-disagree-on-zero-written-to-unset-slot"
 )
 
 // usesHeadReader: does the handler serve this request from a head reader (`latest`, v8
@@ -552,7 +597,7 @@ func (w *world) usesHeadReader(q *query, ver string) bool {
 	if q.id == nil {
 		return false
 	}
-	return q.id.tag == "latest" || (q.id.tag == "pre" && ver == "v8") || q.id.kind == "hash-zero"
+	return q.id.tag == "latest" || q.id.sem(ver) == "pending" || q.id.kind == "hash-zero"
 }
 
 // isFormerValue: is `got` ("ok v", v != 0) a value the slot held at some earlier block of the
@@ -601,6 +646,9 @@ func (w *world) headReaderAnswers(q *query, ver, got string) bool {
 	if q.method == "storage" {
 		return got == "ok 0" || w.isFormerValue(q, got) || w.isRevertedValue(q, got)
 	}
+	if q.method == "storageLU" {
+		return strings.HasPrefix(got, "ok 0 @")
+	}
 	return false
 }
 
@@ -613,6 +661,8 @@ func emptyStateAnswer(method, ver string) string {
 		if ver == "v10" {
 			return "ok 0"
 		}
+	case "storageLU":
+		return "ok 0 @0"
 	}
 	return errLine(codeContractNotFound)
 }
@@ -676,8 +726,8 @@ func (h *harness) consistency(s, round int, w *world, picks []consistencyPick) {
 					o, _ := v.(jobj)
 					return o
 				}
-				bt := get("starknet_getBlockWithTxs", []any{id.json(ver)})
-				br := get("starknet_getBlockWithReceipts", []any{id.json(ver)})
+				bt := get("starknet_getBlockWithTxs", []any{id.json()})
+				br := get("starknet_getBlockWithReceipts", []any{id.json()})
 				if bt == nil || br == nil {
 					continue
 				}
@@ -699,7 +749,7 @@ func (h *harness) consistency(s, round int, w *world, picks []consistencyPick) {
 					inRc, _ := pair["transaction"].(jobj)
 					rcIn, _ := pair["receipt"].(jobj)
 					byHash := get("starknet_getTransactionByHash", []any{tx.Hash().String()})
-					byIdx := get("starknet_getTransactionByBlockIdAndIndex", []any{id.json(ver), i})
+					byIdx := get("starknet_getTransactionByBlockIdAndIndex", []any{id.json(), i})
 					rcByHash := get("starknet_getTransactionReceipt", map[string]any{"transaction_hash": tx.Hash().String()})
 					if byHash == nil || byIdx == nil || rcByHash == nil || inRc == nil || rcIn == nil {
 						continue
@@ -742,4 +792,11 @@ func (h *harness) consistency(s, round int, w *world, picks []consistencyPick) {
 func sameFelt(s string, f *felt.Felt) bool {
 	g, err := new(felt.Felt).SetString(s)
 	return err == nil && g.Equal(f)
+}
+
+// sameValueDifferentBlock: two "ok <value> @<block>" answers with the same value but different
+// block numbers.
+func sameValueDifferentBlock(a, b string) bool {
+	fa, fb := strings.Fields(a), strings.Fields(b)
+	return len(fa) == 3 && len(fb) == 3 && fa[0] == "ok" && fb[0] == "ok" && fa[1] == fb[1] && fa[2] != fb[2]
 }
